@@ -135,11 +135,14 @@ type FnEnc struct {
 	paramVals  map[string]ssa.Value
 	defers     []*ssa.Defer
 	heapCache  map[string]string
+	opaqueInt  bool
 	unresolvedNote []string
 	unmodelled map[string]bool
 	relevant   map[string]bool
+	waived        []string
 	lastFreshMods map[string]bool
 	lastFullMods  map[string]bool
+	lastTargets   map[string][]ssa.Value
 }
 
 type loopInfo struct {
@@ -166,7 +169,7 @@ func (f *FnEnc) def(prefix, srt, term string) string {
 		return term
 	}
 	n := f.sym(prefix)
-	if strings.HasPrefix(srt, "(Array") || (srt == "Int" && !strings.HasPrefix(prefix, "idx") && !strings.HasPrefix(prefix, "ref")) {
+	if strings.HasPrefix(srt, "(Array") || (srt == "Int" && f.opaqueInt) {
 		// arrays, and integers (which end up as indices), are used in quantifier patterns: keep
 		// them uninterpreted constants so that the solver's arithmetic normalisation does not
 		// change the shape of index terms
@@ -215,6 +218,17 @@ func (f *FnEnc) oblige(kind, label string, tags []string, goal string, src strin
 	}
 	if goal == "true" {
 		return
+	}
+	if f.c != nil {
+		f.kindN["w/"+kind+"/"+label]++
+		wname := fmt.Sprintf("%s/%s#%d", kind, label, f.kindN["w/"+kind+"/"+label])
+		for _, w := range f.c.Waive {
+			if w[0] == wname || w[0] == kind+"/"+label {
+				f.waived = append(f.waived, fmt.Sprintf("%s/%s: %s", f.name, wname, w[1]))
+				f.assume(goal)
+				return
+			}
+		}
 	}
 	if kind == "safe" && f.c != nil && f.c.SafeUnder != nil {
 		goal = fmt.Sprintf("(=> %s %s)", f.evalClause(f.c.SafeUnder, f.baseEnv(f.st)), goal)
@@ -1005,7 +1019,7 @@ func (f *FnEnc) heapWF(n, c, w string) string {
 	ptrLike := func(s string, v string) string {
 		switch s {
 		case "Slice":
-			return fmt.Sprintf("(<= (sl.arr %s) %s)", v, w)
+			return fmt.Sprintf("(and (wfSlice %s) (<= (sl.arr %s) %s))", v, v, w)
 		case "Any":
 			return fmt.Sprintf("(=> (isPtrTid (a.tid %s)) (<= (a.val %s) %s))", v, v, w)
 		}
